@@ -374,6 +374,18 @@ func (e *Engine) info(fn *ssa.Function) *fnInfo {
 				return ok && c.Call.StaticCallee() != nil && isInputRecv(c.Call.StaticCallee())
 			}
 			switch x := in.(type) {
+			case *ssa.BinOp:
+				// a small counter that decides control flow (`for dashes < 2 && ...`, `if dashes < 2`): its value is
+				// correlated with how far the cursor moved, so it is tracked like a look-ahead constant
+				if isCmp(x.Op) && e.reach[fn] {
+					for _, pr := range [][2]ssa.Value{{x.X, x.Y}, {x.Y, x.X}} {
+						ph, isPhi := pr[0].(*ssa.Phi)
+						k, isK := pr[1].(*ssa.Const)
+						if isPhi && isK && isPlainInt(ph.Type()) && ssaIntConst(k) && k.Int64() >= 0 && k.Int64() <= 8 && counterPhi(ph) {
+							mark(ph, 0)
+						}
+					}
+				}
 			case *ssa.Slice:
 				if isLexeme(x.X) {
 					mark(x.Low, 0)
@@ -746,6 +758,31 @@ func (e *Engine) run(fn *ssa.Function, entry *State, args []AbsVal) []exitState 
 		out = append(out, *merged[k])
 	}
 	return out
+}
+
+// counterPhi: an integer phi all of whose operands are small constants or itself plus/minus a constant.
+func counterPhi(ph *ssa.Phi) bool {
+	for _, ed := range ph.Edges {
+		switch x := ed.(type) {
+		case *ssa.Const:
+			if !ssaIntConst(x) || x.Int64() < -8 || x.Int64() > 8 {
+				return false
+			}
+		case *ssa.BinOp:
+			if x.Op != token.ADD && x.Op != token.SUB {
+				return false
+			}
+			if x.X != ssa.Value(ph) {
+				return false
+			}
+			if k, ok := x.Y.(*ssa.Const); !ok || !ssaIntConst(k) {
+				return false
+			}
+		default:
+			return false
+		}
+	}
+	return true
 }
 
 // isFuncSlice: a slice (or pointer to array) of function values.
